@@ -27,17 +27,25 @@ fn build_routes(bits: &[bool], sup: u64) -> (BitVector, bool) {
     // route 3: conversion
     let mut c = BitVector::copy_bit_vec(&a);
     let mut same = a == b && a == c && serialize_elems(&a) == serialize_elems(&b) && serialize_elems(&a) == serialize_elems(&c);
-    for v in [&mut a, &mut b, &mut c] {
-        if sup & 1 != 0 {
-            v.enable_rank();
-        }
-        if sup & 2 != 0 {
-            v.enable_select();
-        }
-        if sup & 4 != 0 {
-            v.enable_select_zero();
+    // the supports are enabled in a different order on each route (rank, select, select_zero / the reverse / a
+    // rotation that depends on the length); the results must be equal whatever the order
+    let orders: [[u64; 3]; 3] = [[1, 2, 4], [4, 2, 1], [[2, 4, 1], [4, 1, 2], [2, 1, 4]][bits.len() % 3]];
+    let mut vs = [&mut a, &mut b, &mut c];
+    for (i, v) in vs.iter_mut().enumerate() {
+        for s in orders[i].iter() {
+            if sup & *s == 0 {
+                continue;
+            }
+            match *s {
+                1 => v.enable_rank(),
+                2 => v.enable_select(),
+                _ => v.enable_select_zero(),
+            }
         }
     }
+    same = same && a.supports_rank() == (sup & 1 != 0) && a.supports_select() == (sup & 2 != 0) && a.supports_select_zero() == (sup & 4 != 0)
+        && b.supports_select() == (sup & 2 != 0) && c.supports_select() == (sup & 2 != 0)
+        && b.supports_select_zero() == (sup & 4 != 0) && c.supports_select_zero() == (sup & 4 != 0);
     same = same && a == b && a == c && serialize_elems(&a) == serialize_elems(&b) && serialize_elems(&a) == serialize_elems(&c);
     (a, same)
 }
